@@ -51,7 +51,8 @@ CHECKS["C02"] = {
     "required_reach": ["types/structure.py:StructureMetaType._write", "types/structure.py:StructureMetaType._read",
                        "bitbuffer.py:BitBuffer.flush", "types/base.py:MetaType._write_0",
                        "types/char.py:CharArray._write", "<compiled>"],
-    "required_cells": ["pinned-witnesses", "align:True", "align:False", "endian:<", "endian:>", "feat:bits", "feat:arr:null"],
+    "required_cells": ["pinned-witnesses", "align:True", "align:False", "endian:<", "endian:>", "feat:bits", "feat:arr:null",
+                       "bit-field-units-placed-at-run-time"],
     "assumptions": ASSUME_COMMON,
 }
 
